@@ -80,6 +80,10 @@ Derived(t) ==
     Src("varindex2", <<SDecl("v", TArr(TArr(t)))>>, EIdx(EIdx(EVar("v", TArr(TArr(t))), ENum(I(0))), ENum(I(0))), FALSE),
     Src("assertion", <<SDecl("v", T_any)>>, EAssert(EVar("v", T_any), t), FALSE),
     Src("callresult", <<>>, [k |-> "call", f |-> "g", xs |-> <<>>, ty |-> t, cn |-> FALSE], FALSE) }
+\* the result of a BUILT-IN function is a variable like the result of any other call
+BuiltinResults == { Src("builtinresult", <<>>, RawCall("split", <<EStr(<<97, 32, 98>>), EStr(<<32>>)>>, TArr(T_str)), FALSE),
+                    Src("builtinresult-group", <<>>, EGrp(RawCall("split", <<EStr(<<97, 32, 98>>), EStr(<<32>>)>>, TArr(T_str))), FALSE),
+                    Src("builtinresult-lit", <<>>, EArr(<<RawCall("split", <<EStr(<<97, 32, 98>>), EStr(<<32>>)>>, TArr(T_str))>>), FALSE) }
 
 \* literals whose elements have different types or are untyped empties, in every order (strictest common type:
 \* "an array composed of different types becomes an array of type any"), and concatenations of empties of different depth
@@ -103,7 +107,7 @@ DeepTargets == {TArr(TArr(TArr(T_any))), TArr(TArr(TArr(T_num))), TArr(TArr(T_an
 
 MixTargets == {TArr(T_num), TArr(T_any), TArr(T_str), TArr(TArr(T_num)), TArr(TArr(T_any)), TMap(T_num), TMap(T_any), T_any}
 
-Sources == UNION {LitVar(t) : t \in {TArr(T_num), TMap(T_num), TArr(T_any), TArr(TArr(T_num))}} \cup InferredEmptyVar
+Sources == BuiltinResults \cup UNION {LitVar(t) : t \in {TArr(T_num), TMap(T_num), TArr(T_any), TArr(TArr(T_num))}} \cup InferredEmptyVar
            \cup UNION {Derived(t) : t \in {T_num, TArr(T_num), TMap(T_num), TArr(T_str)}}
            \cup {VarSrc(t) : t \in Universe} \cup {LitSrc(t) : t \in Universe \ {T_any}} \cup Empties
            \cup UNION {ConstExprs(t) : t \in (Types1 \ {T_any}) \cup {TArr(TArr(T_num))}}
@@ -137,12 +141,24 @@ ReturnCell(t, s) == Cell("return", s.nm,
 InferCell(s) == Cell("infer", s.nm, Prog(s.pre \o <<RawInfer("x", s.e), Pr(<<TypeOf(X(Inferred(s.ty)))>>)>>, WithG(s, <<>>)),
                      TRUE, <<Line(TypeCps(Shown(Inferred(s.ty), s.ty)))>>)
 
+\* the loop variable of a range over a constant array (a literal, a concatenation, a repetition, a slice of literals)
+\* is a variable: assignable to an identical type or to any only
+LoopLits == { EArr(<<EArr(<<ENum(I(1)), ENum(I(2))>>), EArr(<<ENum(I(3))>>)>>), EBin("*", EArr(<<EArr(<<ENum(I(1))>>)>>), ENum(I(2))),
+              ESlice(EArr(<<EArr(<<ENum(I(1)), ENum(I(2))>>)>>), <<>>, <<>>), EBin("+", EArr(<<EArr(<<ENum(I(1))>>)>>), EArr(<<EArr(<<ENum(I(2))>>)>>)),
+              EArr(<<EMap(<<K_k>>, <<ENum(I(1))>>)>>), EArr(<<EArr(<<EStr(<<97>>)>>)>>) }
+LoopVarCell(t, lit) ==
+  LET et == Tail(lit.ty)
+  IN Cell("loopvar", "loopvar", Prog(<<SDecl("x", t), SFor("v", "arr", <<lit>>, <<RawAsg(X(t), EVar("v", et))>>), Pr(<<TypeOf(X(t))>>)>>, <<>>),
+          Accepts(t, et, FALSE), IF Accepts(t, et, FALSE) THEN <<Line(TypeCps(Shown(t, et)))>> ELSE <<>>)
+LoopVarMix(lit) == Cell("loopvar", "loopvar-mix", Prog(<<SFor("v", "arr", <<lit>>, <<RawInfer("x", EArr(<<EVar("v", Tail(lit.ty)), EArr(<<EStr(<<122>>)>>)>>)), Pr(<<TypeOf(X(TArr(T_any)))>>)>>)>>, <<>>), TRUE, <<>>)
+
 \* quick tier: every source against every target in the assignment context; the other contexts on fewer targets
 Universe2 == IF Tier = "quick" THEN {T_num, T_any, TArr(T_num), TArr(T_any), TMap(T_any), TArr(TArr(T_any))} ELSE Universe
 ContextCells == UNION {{AssignCell(t, s)} : t \in Universe, s \in Sources}
                 \cup UNION {{FieldCell(t, s), ParamCell(t, s), VariadicCell(t, s), ReturnCell(t, s)} : t \in Universe2, s \in Sources}
                 \cup {InferCell(s) : s \in Sources}
                 \cup {InferCell(s) : s \in MixLits} \cup {AssignCell(t, s) : t \in MixTargets, s \in MixLits}
+                \cup {LoopVarCell(t, l) : t \in {TArr(T_num), TArr(T_any), T_any, TMap(T_num), TMap(T_any), TArr(T_str)}, l \in LoopLits}
                 \cup {InferCell(s) : s \in DeepLits} \cup {AssignCell(t, s) : t \in DeepTargets, s \in DeepLits}
                 \cup {ParamCell(t, s) : t \in DeepTargets, s \in DeepLits} \cup {ReturnCell(t, s) : t \in DeepTargets, s \in DeepLits}
 
